@@ -27,6 +27,10 @@ CLAIMED = {
  "C20": dict(engine="reconfigure", path="harness/scen/c20.go", design="DESIGN.md section 4 (C20)",
    text="Seeded search over option histories (1-6, thorough up to 40 Configure calls: directory lists that overlap, repeat, are disjoint or missing; auto-refresh on/off) on a NewCache instance or the package-level default cache (first touched by Configure, GetDefaultCache or a query), interleaved by the seeded scheduler with a mutator task, a polling client, every stale watcher goroutine an earlier configuration left behind, and windows of descriptor exhaustion around Configure calls (strict: another part of the process takes every freed descriptor; loose: it does not). At quiescence the reconfigured cache is compared with a new cache created with the final options in a second simulated process (devices, definitions, Spec-file errors, directory errors, directory list), resource bounds are asserted on the simulated kernel's own tables (watcher goroutines, inotify instances, poller descriptors, watched inodes), and a probe change in every final directory must be noticed without Refresh() iff auto-refresh is on.",
    note="One known finding is recorded (scan starved of descriptors while the watcher could be created; known_findings.json). Ordinary file descriptors left open are not asserted (a forgotten Close is reclaimed by the os.File finalizer in real life)."),
+ "C12": dict(engine="concurrent", path="harness/scen/c12.go", design="DESIGN.md section 4 (C12)",
+   text="Seeded schedule exploration of 2-4 client tasks running drawn programs over the whole public cache API together with the watcher goroutines (including stale ones), on a build in which the rewriter reports every struct-field, package-variable and map access of pkg/cdi (341 sites) to a vector-clock happens-before race detector (the Go race detector is blind under a cooperative scheduler) and makes accesses preemption points. Four oracles: data races (interleaving-independent), deadlock/panic (exact: quiescence with a task blocked on a lock), one-snapshot (every result equals the resolution of one (configuration, disk state) pair that existed so far, with a file switching atomically between absent/A/B with overlapping devices and different markers), and linearizability of manual-mode histories stamped with scheduler steps against a small model, decided by porcupine.",
+   technique="deterministic simulation: seeded schedule search with a vector-clock race detector over rewriter-instrumented accesses, snapshot oracle, porcupine linearizability check",
+   note="The race detector sees struct fields, package variables and maps of the rewritten packages; slice elements and third-party code are not tracked. Trusted: rewriter R6, simsync happens-before edges, porcupine."),
 }
 
 PURE = {
